@@ -33,6 +33,9 @@ for name in names:
             st = "KILLED" if (r.returncode == 1 and "VIOLATION property=%s" % c in r.stdout) else ("HARNESS-ERROR" if r.returncode == 2 else "survived")
             got.append("%s:%s" % (c, st))
         ok = any(g.endswith("KILLED") for g in got)
+        if meta.get("confirmed", {}).get("unreported"):  # kept on file as a known gap (DESIGN 5.2), not counted
+            print("%-8s %s %s" % (name, "known-unreported" if not ok else "now-reported", " ".join(got)), flush=True)
+            continue
         if not ok:
             bad += 1
         print("%-8s %s %s" % (name, "ok  " if ok else "MISS", " ".join(got)), flush=True)
